@@ -869,10 +869,8 @@ class InterfaceClass(_InterfaceClassBase):
             return self.__attrs.items()
 
         r = {}
-        for base in self.__bases__[::-1]:
-            r.update(dict(base.namesAndDescriptions(all)))
-
-        r.update(self.__attrs)
+        for iface in self.__iro__[::-1]:
+            r.update(iface.namesAndDescriptions())
 
         return r.items()
 
